@@ -197,7 +197,7 @@ func run(a hx.RunArgs) error {
 	out.Rule = "a generated database (1-3 tables, <=3 columns, <=6 rows, NULLs, duplicate rows, int and varchar columns, optional secondary index) " +
 		"and a type-directed random query term (depth <=4) printed as SQL for the engine and as an s-expression for the Lean reference semantics; " +
 		"a case is non-trivial when the engine returned at least one row, the query has at least two relational operators and the data has a NULL"
-	r := hx.NewRand(a.Seed)
+	r := hx.NewRand(a.Seed).Fork() // (hx.NewRand(s+1) is hx.NewRand(s) advanced by one draw: fork to decorrelate seeds)
 	nDb, perDb := 60, 12
 	if a.Thorough {
 		nDb, perDb = 2500, 16
